@@ -426,9 +426,14 @@ impl WriteBuffer {
         let mut retry_delay_us = 50;
         let format = get_format_ref(self.format_version);
 
+        #[cfg(feature = "verif")]
+        let mut verif_rounds = 0u64;
         loop {
             #[cfg(feature = "verif")]
-            crate::verif::sched("force_flush.loop", pending_workers.len() as u64, 0);
+            {
+                crate::verif::sched("force_flush.loop", pending_workers.len() as u64, verif_rounds);
+                verif_rounds += 1;
+            }
             let mut responses = Vec::with_capacity(pending_workers.len());
             for worker_id in pending_workers.drain(..) {
                 let (tx, rx) = bounded(1);
